@@ -665,7 +665,8 @@ Section PPIMasks.
     pose proof (chunks_perm T leb leb_trans leb_total (list T) (keyc c)
                   (gppi_chunks n lf (map (rowat rows) perm)) (gppi_chunks n lf (map (rowat rows') perm'))) as CP.
     rewrite !gppi_chunks_concat in CP by exact Hn.
-    specialize (CP (gppi_chunks_lengths n lf _ _ ltac:(rewrite !map_length; congruence))).
+    assert (LS : length (map (rowat rows) perm) = length (map (rowat rows') perm')) by (rewrite !map_length; congruence).
+    specialize (CP (gppi_chunks_lengths n lf _ _ LS)).
     specialize (CP (perm_trans (sorted_rows_perm rows perm Hp) (perm_trans HP (Permutation_sym (sorted_rows_perm rows' perm' Hp'))))).
     specialize (CP (SS _ _ Hs) (SS _ _ Hs') Hsep).
     rewrite !gppi_chunks_map in CP. rewrite <- !gppi_chunks_nat in CP. unfold ppi_masks.
@@ -717,6 +718,9 @@ Section PPIMasks.
     Forall2 (fun a b => f a = g b) l l' -> map f l = map g l'.
   Proof. induction 1 as [|a b l l' H _ IH]; [reflexivity|]. cbn [map]. rewrite H, IH. reflexivity. Qed.
 
+  Lemma Forall2_len {A B} (Q : A -> B -> Prop) l l' : Forall2 Q l l' -> length l = length l'.
+  Proof. induction 1; cbn; congruence. Qed.
+
   Lemma Forall2_impl2 {A B} (P Q : A -> B -> Prop) l l' : (forall a b, P a b -> Q a b) -> Forall2 P l l' -> Forall2 Q l l'.
   Proof. intros H. induction 1; constructor; auto. Qed.
 
@@ -754,20 +758,23 @@ Section PPIMasks.
         apply Permutation_length. apply Hm.
       - apply IH; intros x Hx; [apply Hl|apply Hl']; right; exact Hx. }
     clear F.
-    pose proof (Forall2_filter _ (fun m => Nat.min n mnp <=? count_true m) (fun m => Nat.min n mnp <=? count_true m) _ _ F2
-                  ltac:(intros a b [E _]; rewrite E; reflexivity)) as F3.
+    assert (F3 : Forall2 (fun m m' => count_true m = count_true m' /\
+                                      forall k, Permutation (selm m (col k rows)) (selm m' (col k rows')))
+                         (filter (fun m => Nat.min n mnp <=? count_true m) (ppi_masks n lf perm))
+                         (filter (fun m => Nat.min n mnp <=? count_true m) (ppi_masks n lf perm'))).
+    { apply Forall2_filter; [exact F2|]. intros a b [E _]. rewrite E. reflexivity. }
     set (ms := filter _ (ppi_masks n lf perm)) in *. set (ms' := filter _ (ppi_masks n lf perm')) in *.
-    assert (LL : length ms = length ms') by (exact (Forall2_length F3)).
+    assert (LL : length ms = length ms') by (exact (Forall2_len _ _ _ F3)).
     assert (EB : bnds (map (fun m => selm m (col c rows)) ms) = bnds (map (fun m => selm m (col c rows')) ms')).
-    { apply Hb. apply Forall2_map2. apply (Forall2_impl2 _ _ _ _ ltac:(intros a b [_ H]; exact (H c)) F3). }
+    { apply Hb. apply Forall2_map2. refine (Forall2_impl2 _ _ _ _ _ F3). intros a b [_ H]. exact (H c). }
     destruct ms as [|m0 ms1] eqn:Ems, ms' as [|m0' ms1'] eqn:Ems'; try discriminate; [exact I|].
     rewrite <- Ems, <- Ems' in *. rewrite <- LL. destruct (length ms <? mni); [exact I|]. cbn [split_equiv].
     rewrite !map_map. cbn [r_mask r_ref r_bounds]. rewrite <- EB.
     pose proof (Forall2_combine_same _ (bnds (map (fun m => selm m (col c rows)) ms)) _ _ F3) as F4.
     split; [|split].
-    - apply Forall2_map2. apply (Forall2_impl2 _ _ _ _ ltac:(intros a b [[_ H] _]; exact (H i)) F4).
-    - apply Forall2_eq_map. apply (Forall2_impl2 _ _ _ _ ltac:(intros a b [[_ H] _]; exact (Hrf _ _ (H c))) F4).
-    - apply Forall2_eq_map. apply (Forall2_impl2 _ _ _ _ ltac:(intros a b [_ H]; exact H) F4).
+    - apply Forall2_map2. refine (Forall2_impl2 _ _ _ _ _ F4). intros a b [[_ H] _]. exact (H i).
+    - apply Forall2_eq_map. refine (Forall2_impl2 _ _ _ _ _ F4). intros a b [[_ H] _]. exact (Hrf _ _ (H c)).
+    - apply Forall2_eq_map. refine (Forall2_impl2 _ _ _ _ _ F4). intros a b [_ H]. exact H.
   Qed.
 End PPIMasks.
 
@@ -862,9 +869,9 @@ Section FloatSlicers.
   Lemma fmax_perm x x' : strict_total_on (fun a => In a x) -> Permutation x x' -> FloatBits.fmax x = FloatBits.fmax x'.
   Proof. intros [H1 [H2 H3]] HP. rewrite !fmax_gmax. apply (gmax_perm float PrimFloat.ltb (fun a => In a x)); auto. Qed.
   Lemma fmin_perm x x' : strict_total_on (fun a => In a x) -> Permutation x x' -> FloatBits.fmin x = FloatBits.fmin x'.
-  Proof. intros [H1 [H2 H3]] HP. rewrite !fmin_gmax. apply (gmax_perm float (fun a b => PrimFloat.ltb b a) (fun a => In a x)); auto.
-    - intros a b c Da Db Dc Hab Hbc. exact (H2 c b a Dc Db Da Hbc Hab).
-    - intros a b Da Db Hab Hba. exact (H3 a b Da Db Hba Hab). Qed.
+  Proof. intros [H1 [H2 H3]] HP. rewrite !fmin_gmax. exact (gmax_perm float (fun a b => PrimFloat.ltb b a) (fun a => In a x) H1
+             (fun a b c Da Db Dc Hab Hbc => H2 c b a Dc Db Da Hbc Hab)
+             (fun a b Da Db Hab Hba => H3 a b Da Db Hba Hab) nan x x' (fun _ h => h) HP). Qed.
 
   Theorem width_plan_perm width r ro vmin vmax mnp mni x x' :
     strict_total_on (fun a => In a x) -> Permutation x x' ->
